@@ -7,7 +7,8 @@ from .runner import call_real
 
 # incl. names pandas or the library use for their own purposes (index, level_0, self, base)
 NESTS = ["n", "my nest", "class", "1st", "n-x", "lc", "N_2", "in", "a", "self", "index", "base"]
-FIELDS = ["a", "b c", "in", "2x", "f/g", "t", "flux", "class", "x", "é", "index", "self", "level_0", "base"]
+# ... and names that differ from another name of the pool only by blanks at their ends ("t " next to "t")
+FIELDS = ["a", "b c", "in", "2x", "f/g", "t", "flux", "class", "x", "é", "index", "self", "level_0", "base", "t ", " x"]
 DOTTED = ["obs.v2", "a.b"]
 
 
